@@ -13,6 +13,7 @@ import RapidProofs.TranslatedPruneEq
 import RapidProofs.PruneLiteralRun
 import RapidProofs.TranslatedRecEq
 import RapidProofs.TranslatedShrinkRun
+import RapidProofs.TranslatedAcceptEq
 
 namespace Rapid.C05
 
@@ -295,6 +296,38 @@ example : exOracle.WF ∧ (∀ s, (exOracle.view s).shrinks < 2 ^ 62) := by
     rcases hg' with rfl | rfl <;> decide
   · intro _ _ _ _; rfl
   · intro s; cases s; decide
+
+/-- **`shrinker.accept` of the source, translated on every run, is the model's `SS.accept`** — the oracle the translated passes are
+    run against in `source_shrinker_run` —: for every state of the shrinker, candidate and property the same answer and the same
+    new state (test case, error, cache, number of accepted steps).  In particular a candidate that is not *strictly smaller*
+    than the current test case (`compareData ≥ 0`) is refused before anything runs, whoever proposes it (S160 skipped that
+    comparison for `minimizeBlocks`); a candidate is accepted only if its first run fails with the same traceback, and the
+    second run — the one that is recorded and pruned — gives the same error (else `panic(err2)`).  Size conditions: fewer than
+    2^62 words in the candidate, the current and the new test case. -/
+theorem source_accept (E : Go.CEnv) (s : SS) (buf : List UInt64) (hits : Int64) (fuel : Nat) (o : Option Once)
+    (hb : buf.length < 2 ^ 62) (hd : s.rc.data.length < 2 ^ 62) (hf : buf.length < fuel)
+    (hk1 : (prunedOfToks (checkOnce E.p (.buf buf) TS.fresh).toks).data.length < 2 ^ 62)
+    (hk2 : (prunedOfToks (checkOnce E.p (.buf buf) TS.fresh).toks).data.length < fuel) :
+    (Go.CM.run E (Translated.shrinker_acceptC s.rc.data s.err s.cache hits (Int64.ofNat s.shrinks) buf fuel) o).1 =
+      match s.accept E.p buf with
+      | .ok r => .ok (Go.acceptOut (if compareData buf s.rc.data < 0 ∧ s.cache.contains buf then hits + 1 else hits) r)
+      | .error (.mismatch _ _ _) => .error .mismatch
+      | .error _ => .error .assertion :=
+  Go.tr_accept E s buf hits fuel o hb hd hf hk1 hk2
+
+/-- so an accepted candidate is strictly smaller than the test case before it, for the *source's* `accept` -/
+theorem source_accept_smaller (E : Go.CEnv) (s : SS) (buf : List UInt64) (hits : Int64) (fuel : Nat) (o : Option Once)
+    (hb : buf.length < 2 ^ 62) (hd : s.rc.data.length < 2 ^ 62) (hf : buf.length < fuel)
+    (hk1 : (prunedOfToks (checkOnce E.p (.buf buf) TS.fresh).toks).data.length < 2 ^ 62)
+    (hk2 : (prunedOfToks (checkOnce E.p (.buf buf) TS.fresh).toks).data.length < fuel)
+    (d : List UInt64) (e : Option Err) (c : List (List UInt64)) (h n : Int64)
+    (hrun : (Go.CM.run E (Translated.shrinker_acceptC s.rc.data s.err s.cache hits (Int64.ofNat s.shrinks) buf fuel) o).1 =
+      .ok (true, d, e, c, h, n)) :
+    compareData buf s.rc.data < 0 := by
+  rw [source_accept E s buf hits fuel o hb hd hf hk1 hk2] at hrun
+  by_cases hc : compareData buf s.rc.data ≥ 0
+  · simp [SS.accept, hc, Go.acceptOut] at hrun
+  · omega
 
 /-- `shrinker.accept` re-read from /repo statement by statement: the model's `accept` (`SS.accept`) was written against exactly this text — a candidate that is not strictly smaller than the current test case is refused before anything runs; the cache only remembers candidates whose first run had another traceback; the first run decides (traceback), the second run records, is pruned, must not be larger than the candidate, and must give the same error (else `panic(err2)`); only then `shrinks++` -/
 theorem accept_body_source : Rapid.Generated.body_shrinker_accept =
